@@ -50,7 +50,13 @@ func (c *Calcium) doReallocOnNode(ctx context.Context, node *types.Node, workloa
 			logger.Debugf(ctx, "realloc workload %+v, resource args %+v, engine args %+v", workload.ID, litter.Sdump(resources), litter.Sdump(engineParams))
 			workload.EngineParams = engineParams
 			workload.Resources = resources
-			return c.store.UpdateWorkload(ctx, workload)
+			if err = c.store.UpdateWorkload(ctx, workload); err != nil {
+				// the node resource has been changed by Realloc already: give the delta back
+				if e := c.rmgr.RollbackRealloc(ctx, workload.Nodename, deltaResources); e != nil {
+					logger.Errorf(ctx, e, "failed to rollback workload %+v, resource args %+v", workload.ID, litter.Sdump(deltaResources))
+				}
+			}
+			return err
 		},
 		// then: update virtualization
 		func(ctx context.Context) error {
